@@ -200,6 +200,34 @@ impl Node for DequeLeaf {
         false
     }
 }
+/// an honest user-defined Buf of (nearly) usize::MAX zero bytes, generated in blocks: lengths that
+/// no buffer of the crate can have (sums of two of them overflow usize).  Its programs are only
+/// compared between configurations (C16); the law module keeps contents as sequences and never
+/// sees them.
+pub struct Zeros {
+    rem: usize,
+}
+static ZBLOCK: [u8; 64] = [0; 64];
+impl Buf for Zeros {
+    fn remaining(&self) -> usize {
+        self.rem
+    }
+    fn chunk(&self) -> &[u8] {
+        &ZBLOCK[..self.rem.min(64)]
+    }
+    fn advance(&mut self, cnt: usize) {
+        assert!(cnt <= self.rem, "Zeros: advance past end");
+        self.rem -= cnt;
+    }
+}
+impl Node for Zeros {
+    fn info(&self, out: &mut String) {
+        let _ = write!(out, "{{\"k\":\"leaf\",\"ty\":\"zeros\",\"limit\":0,\"d\":[],\"huge\":{}}}", enc(self.rem));
+    }
+    fn set_limit(&mut self, _: &[u64], _: usize) -> bool {
+        false
+    }
+}
 impl Node for Chunked {
     fn info(&self, out: &mut String) {
         let mut v = Vec::new();
@@ -410,6 +438,7 @@ pub fn build(v: &Value) -> Box<dyn Node> {
             c.skip_empty();
             Box::new(c)
         }
+        "zeros" => Box::new(Zeros { rem: dec(&v["n"]) }),
         "chain" => Box::new(DN(build(&v["a"])).chain(DN(build(&v["b"])))),
         "take" => Box::new(DN(build(&v["t"])).take(dec(&v["limit"]))),
         "ref" => Box::new(RefNode { inner: Box::into_raw(build(&v["t"])) }),
